@@ -332,6 +332,9 @@ func (u *Unit) safety(st *State, fr *Frame, pos token.Pos, what string, goal *Te
 	if u.specMode > 0 || !u.Cfg.Safety {
 		return
 	}
+	if !InRepo(fr.fn) && !u.isSpecFile(fr.fn) {
+		return // code of a dependency executed from its SSA: assumed not to panic
+	}
 	if goal.IsBool && goal.B {
 		u.TrivialSafety++ // discharged by constant folding (e.g. dereference of a fresh local)
 		return
